@@ -184,6 +184,28 @@ theorem Fr.qPush_eq {t' : Streams} {r : Bool} {q : QName} {id : Nat} (he : t.qPu
 
 end
 
+-- side condition first: `apply …; (· noflow)` (a `refine` with holes cannot be used when the source
+-- state of the goal is still a metavariable)
+section
+variable {s t : Streams}
+theorem Fr.modStream' {id : Nat} {f : Stream → Stream} (hf : NoFlow f) (h : Fr s t) : Fr s (t.modStream id f) :=
+  h.modStream id f hf
+theorem Fr.modStreamW' {id : Nat} {f : Stream → Stream × List String} (hf : NoFlowW f) (h : Fr s t) :
+    Fr s (t.modStreamW id f) := h.modStreamW id f hf
+theorem Fr.modSend' {f : Send → Send} (hf : ∀ sd, (f sd).prioritize = sd.prioritize) (h : Fr s t) :
+    Fr s (t.modSend f) := h.modSend f hf
+theorem Fr.modPrio' {f : Prioritize → Prioritize}
+    (hf : ∀ p, (f p).flow = p.flow ∧ (f p).maxBufferSize = p.maxBufferSize) (h : Fr s t) : Fr s (t.modPrio f) :=
+  h.modPrio f hf
+/-- a state that a `match f … with | (t', r) => …` bound: go back to `(f …).1` -/
+theorem Fr.of_fst_eq {α : Type} {p : Streams × α} {t' : Streams} {r : α} (he : p = (t', r)) (h : Fr s p.1) : Fr s t' := by
+  subst he; exact h
+theorem Fr.qPop_eq' {t' : Streams} {r : Option Nat} {q : QName} (he : t.qPop q = (t', r)) (h : Fr s t) : Fr s t' :=
+  Fr.qPop_eq he h
+theorem Fr.qPush_eq' {t' : Streams} {r : Bool} {q : QName} {id : Nat} (he : t.qPush q id = (t', r)) (h : Fr s t) :
+    Fr s t' := Fr.qPush_eq he h
+end
+
 -- ===================================================================== the tactic
 
 /-- side conditions `NoFlow f` / `NoFlowW f` -/
@@ -230,18 +252,22 @@ macro_rules | `(tactic| fr_peel) => `(tactic| first
   | with_reducible apply Fr.qPush
   | with_reducible apply Fr.qPushFront
   | with_reducible apply Fr.qPop
-  | with_reducible refine Fr.qPop_eq (by assumption) ?_
-  | with_reducible refine Fr.qPush_eq (by assumption) ?_
-  | with_reducible refine Fr.modStream ?_ _ _ (by noflow)
-  | with_reducible refine Fr.modStreamW ?_ _ _ (by noflow)
-  | with_reducible refine Fr.modSend ?_ _ (fun _ => rfl)
-  | with_reducible refine Fr.modPrio ?_ _ (fun _ => ⟨rfl, rfl⟩))
+  | (with_reducible apply Fr.modStream'; (· noflow))
+  | (with_reducible apply Fr.modStreamW'; (· noflow))
+  | (with_reducible apply Fr.modSend'; (· exact fun _ => rfl))
+  | (with_reducible apply Fr.modPrio'; (· exact fun _ => ⟨rfl, rfl⟩)))
+
+set_option hygiene false in
+/-- inside an induction on fuel: the hypothesis must be called `ih` -/
+macro "apply_ih" : tactic => `(tactic| with_reducible apply ih)
 
 /-- close the goal, or peel one primitive -/
 macro "fr_prim" : tactic => `(tactic| first
   | with_reducible assumption
   | with_reducible exact Fr.refl _
-  | fr_peel)
+  | fr_peel
+  | apply_ih
+  | (with_reducible apply Fr.of_fst_eq; (· with_reducible assumption)))
 
 /-- peel primitives, split `if`/`match`, until nothing is left -/
 macro "fr_auto" : tactic => `(tactic| repeat' (first | fr_prim | split))
